@@ -159,7 +159,17 @@ impl Oracle for CrashOracle {
 				use lightning::ln::channelmanager::RecentPaymentDetails as R;
 				let listed_pending = w.nodes[p.from].cm.list_recent_payments().iter().any(|r| matches!(r, R::Pending { payment_id, .. } if *payment_id == p.id));
 				let in_flight: usize = w.nodes[p.from].cm.list_channels().iter().map(|c| c.pending_outbound_htlcs.iter().filter(|x| x.payment_hash == p.hash).count()).sum();
-				let on_chain = w.nodes[p.from].mon.get_claimable_balances(&[]).iter().any(|b| !matches!(b, lightning::chain::channelmonitor::Balance::ClaimableOnChannelClose { .. }));
+				// (an HTLC of this payment that a closed channel's monitor is still resolving on chain)
+				let on_chain = w.nodes[p.from].mon.get_claimable_balances(&[]).iter().any(|b| {
+					use lightning::chain::channelmonitor::Balance as B;
+					match b {
+						B::MaybeTimeoutClaimableHTLC { payment_hash, .. } | B::MaybePreimageClaimableHTLC { payment_hash, .. } | B::ContentiousClaimable { payment_hash, .. } => *payment_hash == p.hash,
+						_ => false,
+					}
+				});
+				if std::env::var("MC_TRACE").is_ok() {
+					eprintln!("    terminal-rule: listed_pending={} in_flight={} on_chain={} events={} recent={:?}", listed_pending, in_flight, on_chain, w.nodes[p.from].has_events(), w.nodes[p.from].cm.list_recent_payments());
+				}
 				if listed_pending && in_flight == 0 && !on_chain && w.nodes[p.from].cm.list_channels().iter().all(|c| c.pending_outbound_htlcs.is_empty()) && !w.nodes[p.from].has_events() {
 					return Err(f(format!(
 						"the sender lists the payment as pending, none of its HTLCs is pending in a channel or left to resolve on chain, no event is queued: it will never see PaymentSent or PaymentFailed (restarted: {})",
